@@ -70,6 +70,9 @@ func (r *Rec) Of(kind string) []Event {
 type Ex struct {
 	N   string
 	Rec *Rec
+	// Preset, if set, is what the default output puts into Package.Extractor before returning
+	// (a package object that arrives already attributed, e.g. taken from a cache).
+	Preset extractor.Extractor
 	// EmitFinding makes the default output carry one finding (advisory reference = N, Extra = path)
 	// next to the package.
 	EmitFinding bool
@@ -124,7 +127,7 @@ func (e *Ex) Extract(ctx context.Context, in *filesystem.ScanInput) (inventory.I
 	if rerr != nil {
 		return inventory.Inventory{}, rerr
 	}
-	inv := inventory.Inventory{Packages: []*extractor.Package{{Name: e.N + "|" + in.Path, Version: "1", Locations: []string{in.Path}}}}
+	inv := inventory.Inventory{Packages: []*extractor.Package{{Name: e.N + "|" + in.Path, Version: "1", Locations: []string{in.Path}, Extractor: e.Preset}}}
 	if e.EmitFinding {
 		inv.Findings = []*detector.Finding{{Adv: &detector.Advisory{ID: &detector.AdvisoryID{Publisher: "ex", Reference: e.N}, Title: "t-" + e.N}, Extra: in.Path}}
 	}
